@@ -23,6 +23,7 @@ func init() {
 	reg("C12", "C12.W", "E6", "writes into the caller's buffer are the enumerated, reviewed ones", 1, ruleCallerBuffer)
 	reg("C12", "C12.L", "E3", "mutex-protected decoder scratch state: accessed under the lock, no alias used after release", 1, ruleDecoderScratch)
 	reg("C12", "C12.D", "E2", "no integer division or remainder by a value that may be zero in the decode path", 1, ruleDecoderDivisions)
+	reg("C12", "C12.A", "E6", "decoder results are not unsafe views of pooled or decoder-owned scratch storage", 1, ruleDecoderBufferViews)
 	reg("C12", "C12.R", "E2", "Pipeline.In returns the event to the pool on a decode error (same rule as C05.R2)", 1, ruleGetStreamOrBack)
 }
 
@@ -430,4 +431,9 @@ func ruleDecoderDivisions(c *Ctx, r *Rule) {
 	c.runDivisions(r, c.decodeScope())
 	r.Inst(1)
 	r.Ob(true, "scope", token.NoPos, "integer divisions in the decode scope enumerated")
+}
+
+func ruleDecoderBufferViews(c *Ctx, r *Rule) {
+	c.runBufferViews(r, c.decodeScope())
+	r.Inst(1)
 }
